@@ -35,6 +35,8 @@ pub struct Scene<A> {
     pub bh: u32,
     pub win: (u32, u32, u32, u32),
     pub vp: (u32, u32, u32, u32),
+    /// mirrored viewport: NDC −1 maps to the right / bottom edge
+    pub flip: (bool, bool),
     pub tk: Tk,
     pub prior_random: bool,
     pub prior_seed: u64,
@@ -44,6 +46,14 @@ pub struct Scene<A> {
 fn sentinel_col(x: u32, y: u32) -> u32 {
     // a NaN payload: the shader can only emit it if the attribute itself is NaN
     0x7FC0_0000 | ((y & 0x7FF) << 11) | (x & 0x7FF)
+}
+
+/// The library's viewport matrix for a rectangle, optionally mirrored.
+pub fn screen_matrix(vp: (u32, u32, u32, u32), flip: (bool, bool)) -> Mat4x4<re::render::NdcToScreen> {
+    let (l, t, r, b) = vp;
+    let (x0, x1) = if flip.0 { (r, l) } else { (l, r) };
+    let (y0, y1) = if flip.1 { (b, t) } else { (t, b) };
+    viewport(pt2(x0, y0)..pt2(x1, y1))
 }
 
 impl<A: Attr> Scene<A> {
@@ -68,6 +78,7 @@ impl<A: Attr> Scene<A> {
             .set("target", self.tk.name())
             .set("window", format!("{:?}", self.win))
             .set("viewport_ltrb", format!("{:?}", self.vp))
+            .set("viewport_mirrored_xy", format!("{:?}", self.flip))
             .set("prior_depth", if self.prior_random { "random per pixel" } else { "0 (far)" })
             .set("generator", self.gen_mode)
             .set("tris", format!("{:?}", self.cs.tris))
@@ -177,7 +188,8 @@ pub fn gen_scene<A: Attr>(rng: &mut Rng, max_tris: usize, maxdim: u32) -> Scene<
         tris[1][0] = tris[0][1];
         tris[1][1] = tris[0][0];
     }
-    Scene { cs: ClipScene { verts, tris }, bw, bh, win, vp, tk, prior_random: tk.has_depth() && rng.chance(1, 3), prior_seed: rng.u64(), gen_mode }
+    let flip = if rng.chance(1, 6) { (rng.bool(), rng.bool()) } else { (false, false) };
+    Scene { cs: ClipScene { verts, tris }, bw, bh, win, vp, flip, tk, prior_random: tk.has_depth() && rng.chance(1, 3), prior_seed: rng.u64(), gen_mode }
 }
 
 pub struct Oracle {
@@ -193,7 +205,7 @@ pub struct Oracle {
 /// Coordinates are in *window* pixels (the target's own coordinate system).
 pub fn build_oracle<A: Attr>(sc: &Scene<A>) -> Oracle {
     let (l, t, r, b) = sc.vp;
-    let vpx = Vp::new(l, t, r, b);
+    let vpx = Vp::new(l, t, r, b).flipped(sc.flip);
     let (w, h) = (sc.win.2 as usize, sc.win.3 as usize);
     let mut mask = vec![false; w * h];
     let mut itris = vec![];
@@ -398,8 +410,7 @@ pub fn judge_scene<A: Attr>(rep: &mut Report, sc: &Scene<A>) {
         return;
     }
     let ctx = Context { face_cull: None, ..Context::default() };
-    let (l, t, r, b) = sc.vp;
-    let to_screen = viewport(pt2(l, t)..pt2(r, b));
+    let to_screen = screen_matrix(sc.vp, sc.flip);
     for comp in 0..A::N {
         let mut cv = sc.canvas();
         let res = render_clip(&sc.cs, &sc.cs.tris, move |f: Frag<A>| Some(pack(f.var.comps()[comp].to_bits())), &ctx, to_screen, &mut cv, sc.tk);
@@ -416,6 +427,9 @@ pub fn judge_scene<A: Attr>(rep: &mut Report, sc: &Scene<A>) {
     rep.count(&format!("generator.{}", sc.gen_mode));
     if sc.prior_random {
         rep.count("prior_depth.random");
+    }
+    if sc.flip != (false, false) {
+        rep.count("viewport.mirrored");
     }
 }
 
@@ -442,7 +456,7 @@ fn front_door_case(rng: &mut Rng, rep: &mut Report) {
     rep.case(hash_scene(&sc) ^ 0x5555, true);
     let ctx = Context { face_cull: None, ..Context::default() };
     let (l, t, r, b) = sc.vp;
-    let to_screen = viewport(pt2(l, t)..pt2(r, b));
+    let to_screen = screen_matrix(sc.vp, sc.flip);
     let verts: Vec<Vertex<ClipVec, Vec3>> = sc.cs.verts.iter().map(|(p, a)| vertex(ClipVec::from(*p), *a)).collect();
     let tris: Vec<Tri<usize>> = sc.cs.tris.iter().map(|t| Tri(*t)).collect();
     let fs = |f: Frag<Vec3>| Some(pack(f.var.0[1].to_bits()));
@@ -525,6 +539,7 @@ fn front_door_case(rng: &mut Rng, rep: &mut Report) {
         bh: sc.bh,
         win: (0, 0, sc.bw, sc.bh),
         vp: (sc.win.0 + l, sc.win.1 + t, sc.win.0 + r, sc.win.1 + b),
+        flip: (false, false),
         tk: Tk::FbOwned,
         prior_random: sc.prior_random,
         prior_seed: sc.prior_seed,
@@ -551,6 +566,7 @@ pub fn run(cfg: &Cfg, rep: &mut Report) {
             bh: 8,
             win: (0, 0, 12, 8),
             vp: (0, 0, 12, 8),
+            flip: (false, false),
             tk: Tk::FbOwned,
             prior_random: false,
             prior_seed: 0,
@@ -575,6 +591,7 @@ pub fn run(cfg: &Cfg, rep: &mut Report) {
             bh: 32,
             win: (0, 0, 32, 32),
             vp: (0, 0, 32, 32),
+            flip: (false, false),
             tk: Tk::FbOwned,
             prior_random: false,
             prior_seed: 0,
@@ -603,5 +620,6 @@ pub fn run(cfg: &Cfg, rep: &mut Report) {
     rep.floor("pixels.judged_occluded_by_prior_depth", 10_000);
     rep.floor("scenes_with_judged_inside_pixels", n / 3);
     rep.floor("front_door.batch", 1_000);
+    rep.floor("viewport.mirrored", 1_000);
     rep.floor("front_door.camera_drew_fragments", 1_000);
 }
